@@ -420,6 +420,40 @@ func (s *runtimeState) resolveIngress(r *http.Request, requestPath string) (stri
 	s.mu.RLock()
 	defer s.mu.RUnlock()
 
+	rt, ok := s.matchIngressLocked(r, requestPath)
+	if !ok {
+		return "", false
+	}
+	return rt.Path, true
+}
+
+// planIngress answers every per-route decision of one ingress request from a
+// single configuration snapshot (one read-lock acquisition), so a reload that
+// lands while the request is in flight cannot be observed half-way.
+func (s *runtimeState) planIngress(r *http.Request, requestPath string) (ingress.RoutePlan, bool) {
+	s.mu.RLock()
+	defer s.mu.RUnlock()
+
+	rt, ok := s.matchIngressLocked(r, requestPath)
+	if !ok {
+		return ingress.RoutePlan{AllowedMethods: s.allowedMethodsLocked(r, requestPath)}, false
+	}
+	plan := ingress.RoutePlan{
+		Route:          rt.Path,
+		BasicAuth:      s.basicByRoute[rt.Path],
+		ForwardAuth:    s.forwardByRoute[rt.Path],
+		HMACAuth:       s.hmacByRoute[rt.Path],
+		MaxBodyBytes:   rt.MaxBodyBytes,
+		MaxHeaderBytes: rt.MaxHeaderBytes,
+	}
+	for _, d := range rt.Deliveries {
+		plan.Targets = append(plan.Targets, d.URL)
+	}
+	return plan, true
+}
+
+// matchIngressLocked scans the route table top-down; s.mu must be held.
+func (s *runtimeState) matchIngressLocked(r *http.Request, requestPath string) (config.CompiledRoute, bool) {
 	var reqHost string
 	if r != nil {
 		reqHost = normalizeHost(r.Host)
@@ -458,18 +492,23 @@ func (s *runtimeState) resolveIngress(r *http.Request, requestPath string) (stri
 		if r != nil && !matchMethods(r.Method, rt.Match.Methods) {
 			continue
 		}
-		return rt.Path, true
+		return rt, true
 	}
-	return "", false
+	return config.CompiledRoute{}, false
 }
 
 func (s *runtimeState) allowedMethodsFor(r *http.Request, requestPath string) []string {
+	s.mu.RLock()
+	defer s.mu.RUnlock()
+	return s.allowedMethodsLocked(r, requestPath)
+}
+
+// allowedMethodsLocked lists the methods of routes matching everything but the
+// method; s.mu must be held.
+func (s *runtimeState) allowedMethodsLocked(r *http.Request, requestPath string) []string {
 	if r == nil {
 		return nil
 	}
-
-	s.mu.RLock()
-	defer s.mu.RUnlock()
 
 	reqHost := normalizeHost(r.Host)
 	queryValues := r.URL.Query()
@@ -1795,6 +1834,7 @@ func startServers(
 	state.setQueueStore(store)
 
 	ing := ingress.NewServer(store)
+	ing.PlanRoute = state.planIngress
 	ing.ResolveRoute = state.resolveIngress
 	ing.AllowedMethodsFor = state.allowedMethodsFor
 	ing.AllowRequestFor = state.allowIngress
